@@ -19,7 +19,10 @@
 (* Event: [t, k, src, m : Seq([n, v, known, valid]), how, outcome, exc,       *)
 (*         hasPre, pre, hasObs, obs, all : Seq([t, obs]), ret, eff,           *)
 (*         hasRef, res, ref, solo : [has, det, outcome, exc, obs, ret, eff,   *)
-(*         res], regOk, reg : Seq([op, root, node, count, owner])]            *)
+(*         res], regOk, reg : Seq([op, root, node, count, owner]),            *)
+(*         expect : [has, store]]   (G: the generating model's post-store of  *)
+(*         the acting thread; ModelAgree cross-checks generator, concretiser  *)
+(*         and this module - a failure is a machinery error, not a verdict)   *)
 (* Stores are sequences of <<name, value-text>>; thread 0 is the process'     *)
 (* main thread (alive from the start, never acts).                            *)
 EXTENDS Integers, Sequences, FiniteSets, TLC, Json, IOUtils
@@ -124,7 +127,8 @@ Clauses(e, rf) ==
               THEN {Cl("Registry.balanced", rf.bal), Cl("Registry.ownerOnly", rf.own),
                     Cl("Registry.quiescent", \A r \in DOMAIN rf.c : rf.c[r] = 0)}
               ELSE {}
-  IN own \cup iso \cup ser \cup rg
+      agr  == IF "expect" \in DOMAIN e /\ e.expect.has THEN {Cl("ModelAgree", PFun(e.expect.store) = store'[e.t])} ELSE {}
+  IN own \cup iso \cup ser \cup rg \cup agr
 
 Init == /\ O!Init
         /\ tid \in 1..Len(Traces)
